@@ -59,6 +59,11 @@ CHECKS = {
          "A catalogue of ~45 circuits whose union instantiates every gate of DefaultGateSerializer (16) and every generator of DefaultGeneratorSerializer constructible through the public API (23 of 24; coverage is computed at run time from the built circuits against the registry lists parsed from the source files, an uncovered entry is a machinery error) - incl. lookups with 1-3 tables, zero-knowledge blinding, a recursion circuit, conditional recursion with the dummy-proof generator and configuration deviations. Per circuit: CircuitData, ProverCircuitData, VerifierCircuitData, CommonCircuitData, VerifierOnlyCircuitData -> to_bytes -> from_bytes -> equal, to_bytes again byte-identical, same digest, strided strict prefixes rejected without panic; interchange for up to 3 inputs: identical full witness and identical proof from the restored circuit (sequential prover, same blinding seed), each circuit verifies the other's proofs; proof and compressed-proof byte round trips (identity, idempotence, truncated encoding rejected). Circuits with unregistered gate types must be refused with an error.",
          "trusted: the types' own PartialEq plus byte idempotence; NonzeroTestGenerator is not constructible from outside the crate",
          "DESIGN.md §4 C17"),
+ "C20": ("model_checking",
+         "differential fault enumeration for conditional verification (full square of branch validities x condition values, every leaf of selected and unselected proof) + explicit-state BFS over cyclic-recursion histories with real proofs, invariants checked in every state and every single-element fault",
+         "Conditional: an outer circuit conditionally_verify_proof(cond, pA, vdA, pB, vdB) built once over two inner circuits with equal common data but different keys (inner cap height differing from the outer's); cond in {0, 1, 2} x each branch in {valid, valid for another input, one tampered element per element kind, wrong verifier data, three false statements emitted by the real prover} in a full square, plus every leaf of the selected and of the unselected proof tampered: the derived assignment satisfies the circuit <=> cond is boolean AND the natively verified validity of the SELECTED branch, irrespective of the other; the _or_dummy variant likewise; dummy proofs for 5 public-input counts x degree bits 3..12 are produced and verify. Cyclic: the hash-chain circuit at the smallest degree closing the self-referential common data, BFS over event sequences {base, step, restart, fork} to depth 3 (thorough 4), states canonicalised by (counter, tip): every reachable proof verifies, passes check_cyclic_proof_verifier_data, carries the circuit's own verifier data, counter = number of steps, tip = reference Poseidon iterate; for every reachable proof used as predecessor each public input (hashes, counter, every verifier-data element) altered gives an unsatisfied assignment; check_cyclic_proof_verifier_data rejects every single-element alteration of embedded or supplied verifier data (thorough: and a proof of another cyclic circuit).",
+         "trusted: exact satisfaction oracle, reference Poseidon; one pair of inner circuit shapes; chain length bounded by the depth",
+         "DESIGN.md §4 C20"),
  "C14": ("exploration",
          "bounded exhaustive enumeration of operator x representation-alphabet tuples + BFS closure over raw representations, oracle = harness bigint arithmetic",
          "Every scalar operator of GoldilocksField on every pair/triple of the branch-derived representation alphabet R (75 raw u64 values incl. non-canonical ones), a BFS closure feeding results back as operands, the D=2,4,5 extensions against schoolbook arithmetic mod X^D-W on coordinate alphabets, batch inversion for every length 0..13 and the packed field lane by lane; run in the checked profile so that a false `assume` is a panic. Exhaustive inside the stated alphabets; the 2^128 operand pairs of the quantifier are out of reach of enumeration.",
